@@ -112,7 +112,9 @@ def check_forms(run, A):
     am = [e.term for e in g.events if e.kind == 'call' and is_call_to(e.term, 'numpy.argmax')]
     ok = bool(am) and strip_views(call_arg(am[0], 1, 'axis')).op == 'param' and strip_views(call_arg(am[0], 1, 'axis')).args[0] == 'source_axis'
     ed = [e.term for e in g.events if e.kind == 'call' and is_call_to(e.term, 'numpy.expand_dims') and call_arg(e.term, 0) is (am[0] if am else None)]
-    ok = ok and bool(ed) and strip_views(call_arg(ed[0], 1, 'axis')).op == 'param' and strip_views(call_arg(ed[0], 1, 'axis')).args[0] == 'source_axis'
+    # (np.expand_dims(np.argmax(x, axis=a), a) is built as np.argmax(x, axis=a, keepdims=True))
+    kept = bool(am) and call_arg(am[0], None, 'keepdims') is not None and const_val(call_arg(am[0], None, 'keepdims')) is True
+    ok = ok and (kept or (bool(ed) and strip_views(call_arg(ed[0], 1, 'axis')).op == 'param' and strip_views(call_arg(ed[0], 1, 'axis')).args[0] == 'source_axis'))
     run.check(ok, 'FORM', 'ideal_binary_mask: arg-max over source_axis, re-expanded on source_axis', fn.loc(), '', 'arg-max / expand_dims do not both use source_axis', construct=f'FORM::{q}::argmax-axis')
     st = [e for e in g.events if e.kind == 'store']
     oks = any(strip_views(e.term.args[1]).op == 'param' and strip_views(e.term.args[1]).args[0] == 'source_axis' for e in st)
